@@ -1,3 +1,258 @@
 import Usual.Common
-/-! Model driver for C14 (stub: not built yet). -/
-def main : IO Unit := IO.println "stub"
+import Usual.C14.Str
+import Usual.C14.Bits
+import Usual.C14.Inet
+import Usual.C14.Libc
+import Usual.C14.Fnmatch
+/-! Model driver for C14: one op per line, see harness/C14/h.c for the op language and the
+    output format (the two programs must print the same line for every op). -/
+open Usual Usual.C14
+
+def toNats (l : List UInt8) : List Nat := l.map (·.toNat)
+def hexOf (l : List Nat) : String := toHex (l.map UInt8.ofNat)
+def arg (w : String) : Option Bytes := (parseHex w).map toNats
+
+def offStr : Option Nat → String
+  | none => "null"
+  | some n => toString n
+
+def int64? (s : String) : Option Int :=
+  match s.toInt? with
+  | some v => if llMin ≤ v ∧ v ≤ llMax ∧ ¬ s.startsWith "+" then some v else none
+  | none => none
+
+def u64? (s : String) : Option Nat :=
+  match s.toNat? with
+  | some v => if v < 2 ^ 64 then some v else none
+  | none => none
+
+def hex2 (n : Nat) : String := String.ofList [hexDigit (n / 16 % 16), hexDigit (n % 16)]
+
+def errStr : NumErr → String
+  | .ok => "ok" | .small => "too small" | .large => "too large" | .invalid => "invalid"
+def errnoStr : NumErr → String
+  | .ok => "keep" | .small => "ERANGE" | .large => "ERANGE" | .invalid => "EINVAL"
+
+def fillAA (n : Nat) : Bytes := List.replicate n 0xAA
+
+/-- `fmt` op: the text the format/arguments of harness kind `k` produce for total length `len` -/
+def fmtArg (n total : Nat) : Bytes := (List.range n).map fun i => 97 + (i * 7 + total) % 26
+def fmtText (kind len : Nat) : Bytes :=
+  if kind = 0 then fmtArg len len
+  else if kind = 1 then List.replicate (len - 2) 32 ++ [52, 50]
+  else [97, 98] ++ fmtArg (len - 7) len ++ [120, 121, 49, 50, 51]
+
+def getlineAll : (fuel : Nat) → Bytes → Option Nat → List String
+  | 0, _, _ => []
+  | f + 1, file, cap =>
+    let r := getline file cap
+    let one := toString r.ret ++ ":" ++ (if r.ret > 0 then hexOf r.line else "-") ++ ":" ++ toString r.size
+    if r.ret < 0 then [one] else one :: getlineAll f r.rest (some r.size)
+
+/-- strict decode of the pattern (`mbstr_decode(..., false)`): `.inl rc` = fnmatch returns rc -/
+def decodeStrict : (fuel : Nat) → Bytes → List Nat → Sum Int (List Nat)
+  | 0, _, acc => .inr acc.reverse
+  | f + 1, s, acc =>
+    if s = [] then .inr acc.reverse
+    else match utf8Mbr s with
+      | .char n wc => decodeStrict f (s.drop n) (wc :: acc)
+      | .nul => .inr acc.reverse
+      | .invalid => .inl 1          -- errno == EILSEQ → FNM_NOMATCH
+      | .incomplete => .inl (-1)    -- errno untouched (0 in the harness) → -1
+
+/-- lax decode of the subject (`mbstr_decode(..., true)`): undecodable bytes stand for themselves -/
+def decodeLax : (fuel : Nat) → Bytes → List Nat → List Nat
+  | 0, _, acc => acc.reverse
+  | f + 1, s, acc =>
+    match s with
+    | [] => acc.reverse
+    | b :: r =>
+      -- the code first tries a full strict decode; on failure restarts char by char: same result
+      match utf8Mbr s with
+      | .char n wc => decodeLax f (s.drop n) (wc :: acc)
+      | .nul => acc.reverse
+      | _ => decodeLax f r (b :: acc)
+
+def bitsLine (lo sh cnt : Nat) : String :=
+  if cnt = 0 then "-" else
+  String.join ((List.range cnt).map fun i =>
+    let v := ((lo + i) * 2 ^ sh) % 2 ^ 64
+    let v32 := v % 2 ^ 32
+    let one := hex2 (ffs 32 v32) ++ hex2 (fls 32 v32) ++ hex2 (ffs 64 v) ++ hex2 (fls 64 v) ++
+               hex2 (ffs 64 v) ++ hex2 (fls 64 v)
+    one ++ one)
+
+def step (_ : Unit) (line : String) : Unit × String :=
+  let bad := "bad-op"
+  let out : String :=
+    match words line with
+    | ["#case"] => "#case"
+    | ["locale"] => "utf8"
+    | [op, d, s, n] =>
+      if op = "strlcpy" ∨ op = "strlcat" ∨ op = "strpcpy" ∨ op = "strpcat" ∨ op = "mempcpy" then
+        match arg d, arg s, n.toNat? with
+        | some d, some s, some n =>
+          if n > d.length then bad
+          else if op = "strlcpy" then let r := strlcpy d (s ++ [0]) n; toString r.1 ++ " " ++ hexOf r.2
+          else if op = "strlcat" then let r := strlcat d (s ++ [0]) n; toString r.1 ++ " " ++ hexOf r.2
+          else if op = "strpcpy" then let r := strpcpy d (s ++ [0]) n; offStr r.1 ++ " " ++ hexOf r.2
+          else if op = "strpcat" then let r := strpcat d (s ++ [0]) n; offStr r.1 ++ " " ++ hexOf r.2
+          else if n > s.length then bad
+          else let r := mempcpy d s n; toString r.1 ++ " " ++ hexOf r.2
+        | _, _, _ => bad
+      else if op = "memrchr" then
+        match arg d, s.toInt?, n.toNat? with
+        | some b, some c, some n =>
+          if c < -2147483648 ∨ c > 2147483647 ∨ n > b.length ∨ s.startsWith "+" then bad
+          else offStr (memrchr b c n)
+        | _, _, _ => bad
+      else if op = "strtonum" then
+        match arg d, int64? s, int64? n with
+        | some b, some mn, some mx =>
+          let r := strtonum (b ++ [0]) mn mx
+          toString r.1 ++ " " ++ errStr r.2 ++ " " ++ errnoStr r.2
+        | _, _, _ => bad
+      else if op = "bits" then
+        match u64? d, u64? s, u64? n with
+        | some lo, some sh, some cnt => if sh > 63 ∨ cnt > 4096 then bad else bitsLine lo sh cnt
+        | _, _, _ => bad
+      else if op = "ntop" then
+        match d.toInt?, arg s, n.toInt? with
+        | some af, some a, some size =>
+          if size > 100 ∨ size < -5 ∨ (af = 4 ∧ a.length ≠ 4) ∨ (af = 6 ∧ a.length ≠ 16) ∨
+             d.startsWith "+" ∨ n.startsWith "+" then bad
+          else if size < 0 then "null ENOSPC -"
+          else
+            let sz := size.toNat
+            let dst := fillAA sz
+            if af ≠ 4 ∧ af ≠ 6 then "null EAFNOSUPPORT " ++ hexOf dst
+            else
+              match (if af = 4 then ntop4 a dst sz else ntop6 a dst sz) with
+              | some d' => "dst 0 " ++ hexOf d'
+              | none => "null ENOSPC " ++ hexOf dst
+        | _, _, _ => bad
+      else if op = "fmt" then
+        match s.toNat?, n.toNat? with
+        | some kind, some len =>
+          if kind > 2 ∨ len > 100000 ∨ (kind = 1 ∧ len < 2) ∨ (kind = 2 ∧ len < 7) ∨
+             ¬ (d = "asprintf" ∨ d = "cx_asprintf" ∨ d = "cx_sprintf") then bad
+          else
+            let r := cxVasprintf (fmtText kind len)
+            match r.2 with
+            | some b => toString r.1 ++ " " ++ hexOf b
+            | none => toString r.1 ++ " null"
+        | _, _ => bad
+      else if op = "mbs" then
+        match arg d, s.toNat? with
+        | some src, some srclen =>
+          if srclen > src.length then bad
+          else if n = "null" then
+            let r := mbsnrtowcs utf8Mbr src srclen none
+            (match r.ret with | some k => toString k | none => "-1") ++ " " ++ offStr r.srcp ++ " -"
+          else
+            match n.toNat? with
+            | some dstlen =>
+              if dstlen > 4096 then bad
+              else
+                let r := mbsnrtowcs utf8Mbr src srclen (some (List.replicate dstlen 0x7AAAAAAA))
+                (match r.ret with | some k => toString k | none => "-1") ++ " " ++ offStr r.srcp ++ " " ++
+                  (if dstlen = 0 then "-" else String.intercalate "," (r.dst.map fun w => String.ofList (Nat.toDigits 16 w)))
+            | none => bad
+        | _, _ => bad
+      else if op = "fnmatch" then
+        match arg d, arg s, n.toNat? with
+        | some p, some str, some fl =>
+          if fl > 31 ∨ p.contains 0 ∨ str.contains 0 then bad
+          else
+            match decodeStrict (p.length + 1) p [] with
+            | .inl rc => toString rc ++ " ## " ++ toString rc
+            | .inr wp =>
+              let ws := decodeLax (str.length + 1) str []
+              let f := FnFlags.ofNat fl
+              toString (fnmatchSpec f wp ws) ++ " ## " ++ toString (wfnmatch f wp ws)
+        | _, _, _ => bad
+      else bad
+    | [op, a, b] =>
+      if op = "strnlen" then
+        match arg a, b.toNat? with
+        | some s, some m => if m > s.length ∧ ¬ s.contains 0 then bad else toString (strnlen s m)
+        | _, _ => bad
+      else if op = "strsep" then
+        match arg b with
+        | some dl =>
+          if a = "null" then "null null -"
+          else match arg a with
+            | some s =>
+              let r := strsep (s ++ [0]) (dl ++ [0])
+              "0 " ++ offStr r.1 ++ " " ++ hexOf r.2
+            | none => bad
+        | none => bad
+      else if op = "memmem" ∨ op = "mempbrk" ∨ op = "memspn" ∨ op = "memcspn" then
+        match arg a, arg b with
+        | some x, some y =>
+          if op = "memmem" then offStr (memmem x y)
+          else if op = "mempbrk" then offStr (mempbrk x y)
+          else if op = "memspn" then toString (memspn x y)
+          else toString (memcspn x y)
+        | _, _ => bad
+      else if op = "pton" then
+        match a.toInt?, arg b with
+        | some af, some s =>
+          if a.startsWith "+" then bad
+          else if af = 4 then
+            match pton4 (s ++ [0]) with
+            | some v => "1 0 " ++ hexOf v
+            | none => "0 0 " ++ hexOf (fillAA 4)
+          else if af = 6 then
+            match pton6 (s ++ [0]) with
+            | some v => "1 0 " ++ hexOf v
+            | none => "0 0 " ++ hexOf (fillAA 16)
+          else "-1 EAFNOSUPPORT " ++ hexOf (fillAA 16)
+        | _, _ => bad
+      else if op = "reallocarray" then
+        match u64? a, u64? b with
+        | some c, some s =>
+          match reallocarray c s with
+          | .realloc t => "realloc " ++ toString t
+          | .enomem => "null ENOMEM"
+        | _, _ => bad
+      else if op = "getline" then
+        match arg a with
+        | some content =>
+          if b = "null" then String.intercalate " " (getlineAll 64 content none)
+          else match b.toNat? with
+            | some init => if init = 0 ∨ init > 100000 then bad
+                           else String.intercalate " " (getlineAll 64 content (some init))
+            | none => bad
+        | none => bad
+      else bad
+    | [op, a] =>
+      if op = "basename" ∨ op = "dirname" then
+        let p : Option (Option Bytes) :=
+          if a = "null" then some none
+          else match arg a with
+            | some s => if s.contains 0 then none else some (some (s ++ [0]))
+            | none => none
+        match p with
+        | none => bad
+        | some path =>
+          if op = "basename" then
+            hexOf (basename path) ++ " ## " ++
+              (match basenameLoc path with | some k => "path+" ++ toString k | none => "static")
+          else
+            match dirname path with
+            | some d => hexOf d ++ " ## static"
+            | none => "null ENAMETOOLONG"
+      else bad
+    | ["timegm", y, mo, d, h, mi, s] =>
+      match y.toInt?, mo.toInt?, d.toInt?, h.toInt?, mi.toInt?, s.toInt? with
+      | some y, some mo, some d, some h, some mi, some s =>
+        if [y, mo, d, h, mi, s].any (fun v => v < -100000 ∨ v > 100000) then bad
+        else
+          let r := timegm y mo d h mi s
+          toString r.secs ++ " wday=" ++ toString r.wday ++ " tz-restored"
+      | _, _, _, _, _, _ => bad
+    | _ => bad
+  ((), out)
+
+def main : IO Unit := runDriver () step
